@@ -1,6 +1,6 @@
 """C01 - at most once per cycle, only after producers; unbroken cycles rejected at build."""
 from __future__ import annotations
-from .runner import Result, Violation
+from .runner import Result, Violation, scaled
 from .gen_core import gen_case, ProgGen, UID
 from .prog import S
 from . import model as M
@@ -166,7 +166,7 @@ def check_mesh(case, tr, res):
 
 
 def generate(rng, tier, seed):
-    n = 400 if tier == "quick" else 6000
+    n = scaled(400 if tier == "quick" else 6000)
     cases = []
     for k in range(n):
         c = gen_case(rng, f"c01_{seed}_{k}", max_depth=3 if rng.random() < 0.3 else 2, allow_ite=(k % 4 == 3))
